@@ -237,7 +237,9 @@ func c10Requests(more bool) []vlib.Req {
 								h["Access-Control-Request-Private-Network"] = ap
 							}
 							if u != nil {
-								h["X-Unrelated"] = u
+								// the unrelated header rotates through names a CORS middleware has no business reading
+								names := []string{"X-Unrelated", "Cookie", "Authorization", "Referer", "X-Forwarded-Host", "Sec-Fetch-Mode", "Access-Control-Allow-Origin", "Host"}
+								h[names[len(out)/2%len(names)]] = u
 							}
 							out = append(out, vlib.Req{Method: m, Hdr: h})
 						}
@@ -296,7 +298,8 @@ func checkC10(c *vlib.Ctx) (string, string) {
 		j.hist = true
 		jobs = append(jobs, j)
 	}
-	universe := []string{"Origin", "Access-Control-Request-Method", "Access-Control-Request-Headers", "Access-Control-Request-Private-Network", "X-Unrelated"}
+	universe := []string{"Origin", "Access-Control-Request-Method", "Access-Control-Request-Headers", "Access-Control-Request-Private-Network", "X-Unrelated",
+		"Cookie", "Authorization", "Referer", "X-Forwarded-Host", "Sec-Fetch-Mode", "Access-Control-Allow-Origin", "Host"}
 	runJob := func(ji int64) {
 		j := jobs[ji]
 		h, inner, m, err := c10BuildM(j.pass, j.lit, j.debug)
